@@ -129,7 +129,7 @@ class Sym:
             if k == "d":
                 continue
             elif k == "f":
-                base = _field(base, p[1])
+                base = _field(base, p[1], p[2] if len(p) > 2 else None)
             elif k == "dc":
                 base = ("variant", base, p[1])
             elif k == "i":
@@ -233,13 +233,13 @@ def _place_key(pl):
     return (pl["l"], _proj_key(pl["p"]))
 
 
-def _field(base, name):
+def _field(base, name, owner=None):
     # field of a known aggregate -> the operand stored there
     if base[0] == "agg":
         for f, v in base[3]:
             if f == name:
                 return v
-    return ("field", base, name)
+    return ("field", base, name, owner)
 
 
 # ---------------------------------------------------------------------------
@@ -276,7 +276,7 @@ def strip_deep(t):
     t = strip(t)
     k = t[0]
     if k == "field":
-        return ("field", strip_deep(t[1]), t[2])
+        return ("field", strip_deep(t[1]), t[2], t[3] if len(t) > 3 else None)
     if k == "variant":
         return ("variant", strip_deep(t[1]), t[2])
     if k == "index":
